@@ -593,7 +593,7 @@ def main(argv=None):
     chk.assumptions = ["field operands are canonical (class invariant of Fq/Fq2, C02/C04)",
                        "the random source writes exactly the n bytes it is asked for (caller's contract); its bytes are unconstrained"]
     # lower layers whose specifications this check relies on: their obligations are part of this check's claim (framework.Check.include)
-    for dep in ['C06', 'C02', 'C03', 'C04', 'C05', 'C19']:
+    for dep in ['C06', 'C02', 'C03', 'C04', 'C05', 'C19', 'C20']:
         chk.include(dep)
     chk.run()
     chk.finish()
